@@ -281,3 +281,83 @@ package graphql
 //@   assigns nothing
 //@   nopanic
 //@   ensures result <==> (has(pair.data, a) && pair.data[a] != nil && has(pair.data[a], b) && (areMutuallyExclusive || !pair.data[a][b]))
+
+// ---- type wrappers and type tracking (C02, C14) ------------------------------------------
+
+//@ func GetNullable
+//@   props C02 C14 C11
+//@   functional
+//@   assigns nothing
+//@   nopanic
+//@   ensures typeis(ttype, "*graphql.NonNull") && as(ttype, "*graphql.NonNull") != nil ==> result == as(ttype, "*graphql.NonNull").OfType
+//@   ensures !typeis(ttype, "*graphql.NonNull") ==> result == ttype
+
+// GetNamed: the equations below define GetNamed_0 by recursion over the (finite) wrapper structure; assumed, see DESIGN.md.
+//@ func GetNamed
+//@   trusted
+//@   functional
+//@   assigns nothing
+//@   ensures typeis(ttype, "*graphql.NonNull") && as(ttype, "*graphql.NonNull") != nil ==> result == GetNamed_0(as(ttype, "*graphql.NonNull").OfType)
+//@   ensures typeis(ttype, "*graphql.List") && as(ttype, "*graphql.List") != nil ==> result == GetNamed_0(as(ttype, "*graphql.List").OfType)
+//@   ensures !typeis(ttype, "*graphql.NonNull") && !typeis(ttype, "*graphql.List") ==> result == ttype
+
+//@ func TypeInfo.InputType
+//@   props C14 C02
+//@   functional
+//@   assigns nothing
+//@   nopanic
+//@   requires ti != nil
+//@   ensures len(ti.inputTypeStack) > 0 ==> result == ti.inputTypeStack[len(ti.inputTypeStack)-1]
+//@   ensures len(ti.inputTypeStack) == 0 ==> result == nil
+
+//@ func TypeInfo.Type
+//@   props C14 C02
+//@   functional
+//@   assigns nothing
+//@   nopanic
+//@   requires ti != nil
+//@   ensures len(ti.typeStack) > 0 ==> result == ti.typeStack[len(ti.typeStack)-1]
+//@   ensures len(ti.typeStack) == 0 ==> result == nil
+
+//@ func typeFromAST
+//@   trusted
+//@   assigns nothing
+
+//@ func IsCompositeType
+//@   trusted
+//@   pure
+
+//@ func Schema.Directive
+//@   trusted
+//@   assigns nothing
+
+//@ func Schema.QueryType
+//@   trusted
+//@   assigns nothing
+//@ func Schema.MutationType
+//@   trusted
+//@   assigns nothing
+//@ func Schema.SubscriptionType
+//@   trusted
+//@   assigns nothing
+
+//@ func InputObject.Fields
+//@   trusted
+//@   functional
+//@   assigns nothing
+
+//@ func TypeInfo.Enter
+//@   props C14 C02
+//@   nosafety
+//@   opt callback.getFieldDef=pure
+//@   requires ti != nil && node != nil
+//@   ensures typeis(node, "*ast.ListValue") ==> len(ti.inputTypeStack) == old(len(ti.inputTypeStack)) + 1 && len(ti.typeStack) == old(len(ti.typeStack)) && len(ti.parentTypeStack) == old(len(ti.parentTypeStack)) && len(ti.fieldDefStack) == old(len(ti.fieldDefStack))
+//@   ensures typeis(node, "*ast.ListValue") && typeis(GetNullable_0(old(TypeInfo.InputType_0(ti))), "*graphql.List") && as(GetNullable_0(old(TypeInfo.InputType_0(ti))), "*graphql.List") != nil ==> ti.inputTypeStack[len(ti.inputTypeStack)-1] == as(GetNullable_0(old(TypeInfo.InputType_0(ti))), "*graphql.List").OfType
+//@   ensures typeis(node, "*ast.ListValue") && !typeis(GetNullable_0(old(TypeInfo.InputType_0(ti))), "*graphql.List") ==> ti.inputTypeStack[len(ti.inputTypeStack)-1] == nil
+//@   ensures typeis(node, "*ast.ObjectField") ==> len(ti.inputTypeStack) == old(len(ti.inputTypeStack)) + 1 && len(ti.typeStack) == old(len(ti.typeStack)) && len(ti.parentTypeStack) == old(len(ti.parentTypeStack))
+//@   ensures typeis(node, "*ast.ObjectField") && !typeis(GetNamed_0(old(TypeInfo.InputType_0(ti))), "*graphql.InputObject") ==> ti.inputTypeStack[len(ti.inputTypeStack)-1] == nil
+//@   ensures typeis(node, "*ast.ObjectField") && as(node, "*ast.ObjectField") != nil && as(node, "*ast.ObjectField").Name != nil && typeis(GetNamed_0(old(TypeInfo.InputType_0(ti))), "*graphql.InputObject") && has(InputObject.Fields_0(as(GetNamed_0(old(TypeInfo.InputType_0(ti))), "*graphql.InputObject")), as(node, "*ast.ObjectField").Name.Value) ==> ti.inputTypeStack[len(ti.inputTypeStack)-1] == InputObject.Fields_0(as(GetNamed_0(old(TypeInfo.InputType_0(ti))), "*graphql.InputObject"))[as(node, "*ast.ObjectField").Name.Value].Type
+//@   ensures typeis(node, "*ast.Field") ==> len(ti.fieldDefStack) == old(len(ti.fieldDefStack)) + 1 && len(ti.typeStack) == old(len(ti.typeStack)) + 1 && len(ti.inputTypeStack) == old(len(ti.inputTypeStack)) && len(ti.parentTypeStack) == old(len(ti.parentTypeStack))
+//@   ensures typeis(node, "*ast.SelectionSet") ==> len(ti.parentTypeStack) == old(len(ti.parentTypeStack)) + 1 && len(ti.typeStack) == old(len(ti.typeStack)) && len(ti.inputTypeStack) == old(len(ti.inputTypeStack))
+//@   ensures typeis(node, "*ast.OperationDefinition") || typeis(node, "*ast.InlineFragment") || typeis(node, "*ast.FragmentDefinition") ==> len(ti.typeStack) == old(len(ti.typeStack)) + 1 && len(ti.inputTypeStack) == old(len(ti.inputTypeStack)) && len(ti.parentTypeStack) == old(len(ti.parentTypeStack))
+//@   ensures typeis(node, "*ast.VariableDefinition") || typeis(node, "*ast.Argument") ==> len(ti.inputTypeStack) == old(len(ti.inputTypeStack)) + 1 && len(ti.typeStack) == old(len(ti.typeStack)) && len(ti.parentTypeStack) == old(len(ti.parentTypeStack))
